@@ -45,7 +45,7 @@ func like(left, right string) (string, error) {
 func likeParam(left, right string, params []any) (string, error) {
 	if len(params) == 1 {
 		pright := params[0].(string)
-		if len(pright) >= 4 && pright[0] == '/' && pright[len(pright)-1] == '/' {
+		if len(pright) >= 2 && pright[0] == '/' && pright[len(pright)-1] == '/' {
 			return fmt.Sprintf("%s ~ %s", left, right), nil
 		}
 	}
